@@ -320,12 +320,17 @@ def run_case(case):
             return res
         h = Hist(spec, order=False, model=m)
         p_old = _Frozen(m.project)          # (the objects of the paused project, for the carry-over by ID)
-        same_object = vr.random() < 0.4
-        e = h.do(["reload"] if same_object else ["saveload"])   # read into the SAME BaseProject object / into a new one
+        r_ = vr.random()
+        how = "reload" if r_ < 0.3 else ("saveload" if r_ < 0.65 else ("deepcopy" if r_ < 0.85 else "pickle"))
+        # read into the SAME BaseProject object / into a new one / duplicated by copy.deepcopy / by a pickle round trip
+        e = h.do([how])
         if e is not None:
+            if how in ("deepcopy", "pickle"):
+                res.violate(prop, "%s/copy-of-paused-project-raises:%s:%s" % (prop, how, e["type"]),
+                            "%s of a paused project raised %s: %s (%s)" % (how, e["type"], e["msg"], e["where"]))
             res["aborted"] = e
             return res
-        res.count("json_resumed_runs.same_object" if same_object else "json_resumed_runs.new_object")
+        res.count("json_resumed_runs." + {"reload": "same_object", "saveload": "new_object"}.get(how, how))
         q = h.p
         started = M.StartedSnap()
         for t in q.workflow.task_list:
